@@ -41,6 +41,8 @@ class BaseSliver(ABC):
     """Base class for all sliver types"""
 
     BOOST_SCRIPT_SIZE = 1024
+    # enumeration the type of this kind of sliver is drawn from (set by subclasses)
+    TYPE_CLASS = None
 
     @abstractmethod
     def __init__(self):
@@ -69,6 +71,8 @@ class BaseSliver(ABC):
         self.boot_script = None # string limited in length
 
     def set_type(self, resource_type):
+        # each kind of sliver takes its type from its own vocabulary (TYPE_CLASS of the subclass)
+        assert resource_type is None or self.TYPE_CLASS is None or isinstance(resource_type, self.TYPE_CLASS)
         self.resource_type = resource_type
 
     def get_type(self):
